@@ -106,6 +106,11 @@ class _MA(object):
         if not is_sym(a):
             return _np.ma.filled(a, fill_value=fill_value)
         use("np.ma.filled")
+        if fill_value is None:
+            # numpy.ma.filled(a) uses the array's own fill value (netCDF4 sets it from _FillValue / missing_value)
+            fill_value = getattr(a, "fill_value", None)
+            if fill_value is None:
+                raise Unsupported("np.ma.filled without fill_value on a masked array whose own fill value is not modelled")
         if isinstance(a, SNum):
             fv = SNum.lift(fill_value)
             return SNum(Ite(bz(a.ismasked()), fv.k, a.k), Ite(bz(a.ismasked()), fv.rv(), a.rv()))
